@@ -5,11 +5,11 @@ from __future__ import annotations
 from pathlib import Path
 
 ALL_TEMPLATES = ["p1_poisson_tri", "p2_poisson_tri", "mixed3_tri", "two_mesh_tri", "prism_facets", "multi_degree_tri",
-                 "elasticity_tet", "interior_facet_tri", "quad_q2", "subdomains_tri", "math_tri", "hdiv_hcurl_tri",
+                 "elasticity_tet", "interior_facet_tri", "quad_q2", "subdomains_tri", "math_tri", "two_const_tri", "hdiv_hcurl_tri",
                  "manifold_tri", "p2_geometry_tri", "hex_q1", "tp_quad_q2", "tp_hex_q2", "expr_p2_tri", "expr_vec_tet"]
 
 QUICK = ["p1_poisson_tri", "p2_poisson_tri", "mixed3_tri", "two_mesh_tri", "prism_facets", "multi_degree_tri",
-         "elasticity_tet", "interior_facet_tri", "tp_quad_q2", "expr_p2_tri"]
+         "elasticity_tet", "interior_facet_tri", "tp_quad_q2", "two_const_tri", "expr_p2_tri"]
 
 # measured generation cost in seconds where it is far from the typical 0.02-0.1 s
 COST = {"demo:HyperElasticity": 3.2, "demo:BiharmonicRegge": 0.9, "demo:BiharmonicHHJ": 0.3, "demo:MassAction": 0.15,
